@@ -335,6 +335,9 @@ class PeerConnection:
         self._read_buffer_queue: queue.Queue = queue.Queue()
         self._read_thread = StoppableThread(target=self.work_read_queue)
         self._write_buffer: bytes = b""
+        # messages handed to `add_out_msg` that the write thread has not yet
+        # turned into bytes in the write buffer
+        self._unwritten_msgs: int = 0
         self._write_msg_queue: queue.Queue = queue.Queue()
         self._write_thread = StoppableThread(target=self.work_write_queue)
 
@@ -463,6 +466,12 @@ class PeerConnection:
     def write_buffer(self) -> bytes:
         return self._write_buffer
 
+    @property
+    def has_pending_output(self) -> bool:
+        """Indicates that there is still something to send: either bytes in
+        the write buffer, or queued messages that are yet to be encoded."""
+        return len(self._write_buffer) > 0 or self._unwritten_msgs > 0
+
     def add_in_bytes(self, read_bytes: bytes):
         """Add network-received bytes to parse and handle.
 
@@ -483,6 +492,8 @@ class PeerConnection:
                 are processed in the order that they were added.
 
         """
+        with self.write_lock:
+            self._unwritten_msgs += 1
         self._write_msg_queue.put(out_msg)
 
     def close(self, signal_node: bool = True):
@@ -629,9 +640,12 @@ class PeerConnection:
             except queue.Empty:
                 continue
 
+            is_written = False
             try:
                 with self.write_lock:
                     self._write_buffer += new_msg.as_bytes()
+                    self._unwritten_msgs -= 1
+                    is_written = True
                 self.demand_attention()
 
                 self.msg_dump.sent(new_msg)
@@ -640,3 +654,9 @@ class PeerConnection:
                 self.logger.warning(
                     f"failed to encode a queued diameter message as bytes: "
                     f"{e}; message discarded")
+                if not is_written:
+                    with self.write_lock:
+                        self._unwritten_msgs -= 1
+                    # a connection that is closing may have been waiting
+                    # for just this message
+                    self.demand_attention()
